@@ -16,6 +16,7 @@ func corporaFor(prop, tier string) []*Case {
 	add := func(l []*Case) { cs = append(cs, l...) }
 	switch prop {
 	case "C01":
+		add(CorpusCross(seed, tier))
 		add(CorpusTypes(seed, tier))
 		add(CorpusImports(seed, tier))
 		add(CorpusNames(seed, tier))
@@ -45,10 +46,12 @@ func corporaFor(prop, tier string) []*Case {
 		add(CorpusTypes(seed, tier))
 		add(CorpusFlags(seed, tier))
 	case "C12":
+		add(CorpusCross(seed, tier))
 		add(CorpusNames(seed, tier))
 		add(CorpusTypes(seed, tier))
 	case "C13":
 		add(CorpusC13(seed, tier))
+		add(CorpusCross(seed, tier))
 	case "C14":
 		add(CorpusImports(seed, tier))
 		add(CorpusMulti(seed, tier))
@@ -143,6 +146,20 @@ func EvaluateCases(prop, tag string, cases []*Case, sc *core.Scratch, ev *core.E
 	preds, err := Predict(sc, ev, tag, cases)
 	if err != nil {
 		return 0, 0, err
+	}
+	if prop == "C13" {
+		var keep []*Case
+		for _, c := range cases {
+			p := preds[c.ID]
+			if c.DropKF && p != nil && (p.Crash || p.NameDup || p.FieldDup || p.Dup || p.Diverge || p.LateCapture) {
+				continue
+			}
+			if c.AutoNames && p != nil {
+				autoNames(c, p)
+			}
+			keep = append(keep, c)
+		}
+		cases = keep
 	}
 	fails, err := JudgeCases(sc, ev, tag, cases)
 	if err != nil {
@@ -291,6 +308,8 @@ func shapeMatches(match string, c *Case, p *Prediction) bool {
 		return p != nil && p.NameDup
 	case "names:field-collision":
 		return p != nil && p.FieldDup
+	case "scope:late-alias-capture":
+		return p != nil && p.LateCapture
 	case "dest:explicitSame+srcTypes":
 		return c.Cfg.Dest == "explicitSame" && mentionsSrc(c)
 	}
@@ -363,4 +382,61 @@ func namesMatch(p *Prediction, o *Obs) bool {
 		}
 	}
 	return true
+}
+
+// autoNames: C13 for written parameter names in rich contexts. A name is
+// judged when the Registry+Scope models say it was kept verbatim (nothing
+// collided when the decision was taken) AND it equals no qualifier of the
+// final import block and no other final name of its method: then the property
+// itself demands the verbatim name and its Exported record field.
+func autoNames(c *Case, p *Prediction) {
+	if c.Obs == nil || c.Obs.Exit != "ok" || len(p.Finals) != 1 {
+		return
+	}
+	quals := map[string]bool{}
+	for _, im := range c.Obs.Imports {
+		quals[im.Qual] = true
+	}
+	si := -1
+	for _, it := range requested(c) {
+		if len(it.TParams) > 0 {
+			si++
+		}
+		for _, m := range it.Methods {
+			si++
+			if si >= len(p.Names) || len(p.Names[si]) != 1 {
+				continue
+			}
+			final := p.Names[si][0]
+			for k, q := range m.Params {
+				if q.Name == "" || q.Name == "_" || k >= len(final) || final[k] != q.Name || quals[q.Name] {
+					continue
+				}
+				dup := false
+				for j, n := range final {
+					if j != k && (n == q.Name || (j < len(m.Params) && exportedMirror(n) == exportedMirror(q.Name))) {
+						dup = true
+					}
+				}
+				if dup || c13Collides(q.Name) {
+					continue
+				}
+				c.Names = append(c.Names, NameRec{Iface: it.Name, Method: m.Name, Index: k, NameCs: cs(q.Name), T: q.T, Judge: true})
+			}
+		}
+	}
+	// fill in what came out
+	for k := range c.Names {
+		nr := &c.Names[k]
+		for _, m := range c.Obs.Mocks {
+			if m.Iface != nr.Iface {
+				continue
+			}
+			for _, me := range m.Methods {
+				if me.Name == nr.Method && nr.Index < len(me.Params) && nr.Index < len(me.RecFields) {
+					nr.GotParam, nr.GotField = me.Params[nr.Index], me.RecFields[nr.Index]
+				}
+			}
+		}
+	}
 }
